@@ -1,4 +1,44 @@
-From V Require Import NegotiateSpec.
+(* Properties_C07.v — C07: Accept negotiation picks the best acceptable offer and only an offer.
+   Theorems only; each is closed by `exact` of a lemma from Proofs/. *)
+From V Require Import NegotiateSpec NegotiateProofs AcceptParseProofs.
+
+(* the chosen type is one of the offers, or the stated default *)
+Theorem C07_result_is_offer_or_default : forall specs offers d,
+  negotiate_content_type specs offers d = d \/ In (negotiate_content_type specs offers d) offers.
+Proof. exact negotiate_offer_or_default. Qed.
+Print Assumptions C07_result_is_offer_or_default.
+
+(* the chosen type is the offer matched by the acceptable range of highest quality, ties broken by the
+   more specific range and then by offer order (NegotiateSpec.lexmax_b); the default when nothing is
+   acceptable; the first offer without an Accept header *)
+Theorem C07_lexmax : forall specs offers d, Forall spec_ok specs ->
+  lexmax_b specs offers d (negotiate_content_type specs offers d) = true.
+Proof. exact negotiate_lexmax. Qed.
+Print Assumptions C07_lexmax.
+
 Theorem C07_no_accept_first_offer : forall o os d, negotiate_content_type [] (o :: os) d = o.
 Proof. reflexivity. Qed.
 Print Assumptions C07_no_accept_first_offer.
+
+(* ranges of quality 0 never select an offer: alone they yield the default, among others they are ignored *)
+Theorem C07_q0_never : forall specs offers d, specs <> [] ->
+  Forall (fun sp => q_is0 (sq sp) = true) specs -> negotiate_content_type specs offers d = d.
+Proof. exact negotiate_all_q0. Qed.
+Print Assumptions C07_q0_never.
+
+Theorem C07_q0_ignored : forall pre post sp0 offers d, q_is0 (sq sp0) = true -> pre ++ post <> [] ->
+  negotiate_content_type (pre ++ sp0 :: post) offers d = negotiate_content_type (pre ++ post) offers d.
+Proof. exact negotiate_q0_ignored. Qed.
+Print Assumptions C07_q0_ignored.
+
+(* no header value exhausts the parser (arbitrary bytes, any number of lines), and every range it
+   yields has a well-formed non-negative quality — the hypothesis of C07_lexmax *)
+Theorem C07_parse_total : forall lines, exists specs, parse_accept lines = Some specs /\ Forall spec_ok specs.
+Proof. exact parse_accept_total. Qed.
+Print Assumptions C07_parse_total.
+
+Theorem C07_negotiate_any_header : forall lines offers d,
+  exists specs, parse_accept lines = Some specs /\
+    lexmax_b specs offers d (negotiate_content_type specs offers d) = true.
+Proof. exact negotiate_parsed_lexmax. Qed.
+Print Assumptions C07_negotiate_any_header.
